@@ -92,6 +92,9 @@ structure Env where
   identical : TyId → TyId → Bool := fun a b => a == b
   /-- `types.LookupFieldOrMethod(t, true, PkgOf(t), name)` -/
   lookup : TyId → String → Lookup
+  /-- `pkg.Types.Scope().Lookup(name) != nil`: the package declares an object of that name (the
+  previous output is withheld from the loader, so its functions are not among them) -/
+  pkgScope : String → Bool := fun _ => false
   /-- `pkg.PkgPath` -/
   pkgPath : String
   /-- `ImportNames` of the setup file: the Go map as an association list without duplicate keys -/
